@@ -39,6 +39,9 @@ def bounds(tier):
 def choice(name, n):
     """symbolic integer in [0, n): concretised by forking on the solver's feasible values (bisection on the range: log2(n)
     solver decisions per choice)"""
+    if name in FORCED:                      # concrete replay of a recorded choice vector
+        CHOSEN[name] = FORCED[name]
+        return FORCED[name]
     v = z3.Int(name)
     if name not in CHOSEN:
         CTX.pre += [v >= 0, v < n]
@@ -54,6 +57,7 @@ def choice(name, n):
 
 
 CHOSEN = {}
+FORCED = {}
 
 
 def load_node():
